@@ -53,10 +53,41 @@ func runC20(c *Ctx) {
 		c.Fail("PRINT-PAIR", "anchor", token.NoPos, "bufctl.ErrFileAnnotation / ExitCodeFileAnnotation not found")
 		return
 	}
-	isPrint := func(info *types.Info, call *ast.CallExpr) bool {
+	isBasePrint := func(info *types.Info, call *ast.CallExpr) bool {
 		fn := Callee(info, call)
 		return fn != nil && fn.Pkg() != nil && strings.HasPrefix(fn.Name(), "PrintFileAnnotationSet") &&
 			(strings.HasSuffix(fn.Pkg().Path(), "bufpkg/bufanalysis") || strings.HasSuffix(fn.Pkg().Path(), "buf/bufcli"))
+	}
+	// a print wrapper: a function of the command tree returning a single error in which every print call is the
+	// operand of a return statement (its error goes straight to the caller, which is where it is tested)
+	wrapperMemo := map[*types.Func]bool{}
+	isPrintWrapper := func(fn *types.Func) bool {
+		if fn == nil || fn.Pkg() == nil || !strings.HasPrefix(fn.Pkg().Path(), modPath) {
+			return false
+		}
+		if v, ok := wrapperMemo[fn]; ok {
+			return v
+		}
+		wrapperMemo[fn] = false
+		d := p.DeclOf(fn)
+		if d == nil || d.Decl.Body == nil || d.Decl.Type.Results == nil || len(d.Decl.Type.Results.List) != 1 || !isErrorType(d.Info().TypeOf(d.Decl.Type.Results.List[0].Type)) {
+			return false
+		}
+		prints, direct := 0, 0
+		ast.Inspect(d.Decl.Body, func(n ast.Node) bool {
+			if call, ok := n.(*ast.CallExpr); ok && isBasePrint(d.Info(), call) {
+				prints++
+				if r, ok := p.Parent(call).(*ast.ReturnStmt); ok && len(r.Results) == 1 {
+					direct++
+				}
+			}
+			return true
+		})
+		wrapperMemo[fn] = prints > 0 && prints == direct
+		return wrapperMemo[fn]
+	}
+	isPrint := func(info *types.Info, call *ast.CallExpr) bool {
+		return isBasePrint(info, call) || isPrintWrapper(Callee(info, call))
 	}
 	// (1) uses of the sentinel
 	for _, pk := range p.ModulePkgs() {
@@ -174,6 +205,10 @@ func runC20(c *Ctx) {
 					}
 				}
 				if errBody == nil {
+					if fr.Obj != nil && isPrintWrapper(fr.Obj) {
+						c.Ob("PRINT-PAIR", name+"/print-error-propagated", call.Pos(), true, false, "print wrapper: the print's error is returned to the caller, where calls of the wrapper are held to this rule")
+						return true
+					}
 					c.Ob("PRINT-PAIR", name+"/print-error-tested", call.Pos(), false, true, "the print's error is not tested in an `if err := …; err != nil` form: undecided")
 					return true
 				}
